@@ -3,7 +3,7 @@
 //    Key = int, blockSize = VX_BLOCKSIZE (chosen so that the REAL formula for node::maxKeys yields VX_MAXK under CBMC's unpadded layout)
 //  - OptimisticReadWriteLock replaced by its sequential specification seen from the one thread that owns the operation
 //    (the lock itself is verified separately: property C30); it carries the ghost flag `up`
-//  - std::vector<node*> -> vx_vec (a set: ghost membership flag in the node), souffle::contains(vector, x)
+//  - std::vector<node*> -> vx_vec (membership: ghost flag in the node; the first VX_VEC_CAP entries are kept in order), souffle::contains(vector, x)
 #ifndef VX_BTNODE_H
 #define VX_BTNODE_H
 #include <cstddef>
@@ -19,6 +19,8 @@ extern "C" bool vx_nondet_bool(void);
 #endif
 #ifdef VX_NATIVE
 inline void vx_vec_mark(void*) {}
+inline void vx_upgraded() {}
+inline bool vx_restart() { return false; }
 inline bool vx_vec_has(const void*) { return true; }
 inline void* vx_new_inner(void) { return 0; }
 inline void* vx_new_leaf(void) { return 0; }
@@ -32,6 +34,8 @@ inline void h_ins_rec(void*, void*, void*, unsigned, void*, const void*, void*, 
 // (declared at global scope: goto-cc gives an extern "C" declaration inside a namespace a namespaced symbol)
 extern "C" {
 void vx_vec_mark(void* x);
+void vx_upgraded(void);          // ghost: the leaf lease was upgraded to a write lock
+bool vx_restart(void);           // the whole operation is restarted (recursive insert): opaque
 bool vx_vec_has(const void* x);
 void* vx_new_inner(void);
 void* vx_new_leaf(void);
@@ -52,6 +56,9 @@ struct OptimisticReadWriteLock {
     bool up;      // ghost: "the sphere of influence above this node is locked" (meaning given in contracts.c)
     bool invec;   // ghost: the node owning this lock has been pushed onto locked_nodes
     OptimisticReadWriteLock() : st(0), ends(0), aborts(0), up(false), invec(false) {}
+    struct Lease { int version; };
+    // upgrade of a read lease: fails whenever the version moved since the lease (nondeterministic here), otherwise the lock is held
+    bool try_upgrade_to_write(const Lease&) { if (st == 1) return false; if (!vx_nondet_bool()) return false; st = 1; vx_upgraded(); return true; }
     bool is_write_locked() const { return st == 1; }
     void start_write() { VX_CHECK(st == 0, "lock: start_write on a lock this thread already holds (self-deadlock)"); st = 1; }
     bool try_start_write() { if (st == 1) return false; if (!vx_nondet_bool()) return false; st = 1; return true; }
@@ -62,11 +69,25 @@ namespace detail {
 struct node;
 }
 // locked_nodes as a SET (membership is all the node operations use): push_back marks the node's ghost flag `invec`
+#ifndef VX_VEC_CAP
+#define VX_VEC_CAP 6
+#endif
 struct vx_vec {
+    detail::node* d[VX_VEC_CAP];   // the first VX_VEC_CAP entries in order (btree::insert releases them in reverse order)
     std::size_t n;
-    void push_back(detail::node* x) { vx_vec_mark((void*)x); if (n < 1000) ++n; }
+    vx_vec() : n(0) {}
+    void push_back(detail::node* x) { if (x) vx_vec_mark((void*)x); if (n < VX_VEC_CAP) *(d + n) = x; if (n < 1000) ++n; }
+    struct rit {
+        vx_vec* v; long i;
+        bool operator!=(const rit& o) const { return i != o.i; }
+        rit& operator++() { --i; return *this; }
+        detail::node* operator*() const { return *(v->d + i); }
+    };
+    rit rbegin() { VX_CHECK(n <= VX_VEC_CAP, "scaffold: locked_nodes capacity (harness bound)"); rit r; r.v = this; r.i = (long)n - 1; return r; }
+    rit rend() { rit r; r.v = this; r.i = -1; return r; }
 };
 inline bool contains(const vx_vec&, const detail::node* x) { return vx_vec_has((const void*)x); }
+struct vx_hints { struct vx_last { void access(const void*) {} } last_insert; };
 namespace detail {
 typedef int Key;
 #define blockSize VX_BLOCKSIZE
